@@ -21,13 +21,15 @@ CONSTANTS Series,          \* e.g. {"c", "g", "s", "t"}; the first letter is the
 \* "c2", "g2": a second series with the SAME NAME as "c" / "g" but another tag set (siblings under one name)
 TypeOf(s) == CASE s \in {"c", "c2"} -> "counter" [] s \in {"g", "g2"} -> "gauge" [] s = "s" -> "set" [] OTHER -> "timer"
 
-VARIABLES hist, now, exp,
+VARIABLES hist, now, exp, half,
           pT, pGone, pPend, pGauge,       \* P-level: last datapoint time, gone flag, ids since last flush, last id ever
           entry,                          \* I-level: series -> [ts, pend, gauge] for entries present in the map
           reports                         \* sequence (one per flush) of [p |-> P-level report, i |-> I-level report]
-vars == <<hist, now, exp, pT, pGone, pPend, pGauge, entry, reports>>
+vars == <<hist, now, exp, half, pT, pGone, pPend, pGauge, entry, reports>>
 
-Init == /\ hist = <<>> /\ now = 0 /\ exp \in ExpirySets
+\* half: datapoints carry a timestamp half a unit before the instant they are merged (the receive time of a datagram is earlier than its
+\* arrival at the aggregator), so at a flush their age is the whole-unit difference plus one half
+Init == /\ hist = <<>> /\ now = 0 /\ exp \in ExpirySets /\ half \in BOOLEAN
         /\ pT = [s \in {} |-> 0] /\ pGone = {} /\ pPend = [s \in Series |-> <<>>] /\ pGauge = [s \in Series |-> {}]
         /\ entry = <<>> /\ reports = <<>>
 
@@ -44,12 +46,12 @@ Data(s) ==
                       THEN [ts |-> IF entry[s].ts < now THEN now ELSE entry[s].ts, pend |-> Append(entry[s].pend, Id),
                             gauge |-> IF entry[s].ts < now THEN Id ELSE entry[s].gauge]     \* MergeGauge: replaced only when strictly newer
                       ELSE [ts |-> now, pend |-> <<Id>>, gauge |-> Id]]
-  /\ UNCHANGED <<now, exp, reports>>
+  /\ UNCHANGED <<now, exp, half, reports>>
 
 Advance == /\ hist' = Append(hist, "A") /\ now' = now + 1
-           /\ UNCHANGED <<exp, pT, pGone, pPend, pGauge, entry, reports>>
+           /\ UNCHANGED <<exp, half, pT, pGone, pPend, pGauge, entry, reports>>
 
-Expired(e, n, ts) == e # 0 /\ n - ts > e
+Expired(e, n, ts) == e # 0 /\ 2 * (n - ts) + (IF half THEN 1 ELSE 0) > 2 * e
 Flush ==
   LET pRep == [s \in {x \in DOMAIN pT : x \notin pGone} |-> [pend |-> pPend[s], gauge |-> pGauge[s]]]
       iRep == [s \in DOMAIN entry |-> [pend |-> entry[s].pend, gauge |-> entry[s].gauge]]
@@ -58,7 +60,7 @@ Flush ==
      /\ pGone' = pGone \cup {s \in DOMAIN pT : Expired(exp[TypeOf(s)], now, pT[s])}
      /\ pPend' = [s \in Series |-> <<>>]
      /\ entry' = [s \in {x \in DOMAIN entry : ~Expired(exp[TypeOf(x)], now, entry[x].ts)} |-> [entry[s] EXCEPT !.pend = <<>>]]
-     /\ UNCHANGED <<now, exp, pT, pGauge>>
+     /\ UNCHANGED <<now, exp, half, pT, pGauge>>
 
 Next == Len(hist) < MaxLen /\ (Advance \/ Flush \/ \E s \in Series : Data(s))
 Spec == Init /\ [][Next]_vars
@@ -69,5 +71,5 @@ IAgreesWithP == \A k \in 1..Len(reports) :
 
 RepOut(r) == {[s |-> s, pend |-> r[s].pend, gauge |-> r[s].gauge] : s \in DOMAIN r}
 Emit == (hist = <<>> \/ hist[Len(hist)] # "F") \/
-        PrintT(<<"CASE", ToJson([hist |-> hist, exp |-> exp, reports |-> [k \in 1..Len(reports) |-> RepOut(reports[k].p)]])>>)
+        PrintT(<<"CASE", ToJson([hist |-> hist, exp |-> exp, half |-> half, reports |-> [k \in 1..Len(reports) |-> RepOut(reports[k].p)]])>>)
 =============================================================================
